@@ -76,3 +76,23 @@ Theorem C01_available_at_start_single_worker : forall g p sched out i u pre l pa
   (results (nst (fst r) par) <> [] /\ forall res, In res (results (nst (fst r) par)) -> r_status res <> SPass).
 Proof. exact available_at_start_b. Qed.
 Print Assumptions C01_available_at_start_single_worker.
+
+(* ---- any number of workers, EVERY graph whose result attribution agrees with ownership (fw_ok_b, checked on every exported
+        graph), pool population, schedule and outcome assignment (Proofs/TraverseSrc.v): whenever a test is started, every
+        worker named as a source in its get locations has a PASS result on a copy of one of the test's parents, and every
+        state that copy sets and that no node marks for removal (unmarked_b) is in that worker's own pool - the location the
+        test is instructed to fetch from really holds the state, now and for the rest of the run ---- *)
+From I2N Require Import Proofs.TraverseKeep Proofs.TraverseSrc.
+Theorem C01_named_sources_hold_the_states : forall g p sched evs w i u pre l o v,
+  fw_ok_b g = true ->
+  let r := run_schedule g (init_state g p) sched in
+  In evs (snd r) -> In (EStart w i u pre l) evs -> In (o, Some v) l ->
+  exists par res, In par (n_parents (nd g i)) /\ In res (shared_results g (fst r) par) /\ r_status res = SPass /\
+    n_first_worker (nd g (r_node res)) = Some v /\
+    forall x, In x (setstates (nd g (r_node res))) -> unmarked_b g x = true -> has_state (pool (fst r)) (Some v) x = true.
+Proof.
+  intros g p sched evs w i u pre l o v Hb r H1 H2 H3.
+  destruct (sources_hold_states g p sched evs w i u pre l o v (fw_ok_b_sound g Hb) H1 H2 H3) as [par [res [A [B [C [D E]]]]]].
+  exists par, res. repeat (split; [assumption|]). intros x Hx Hu. apply E; [exact Hx | now apply unmarked_b_sound].
+Qed.
+Print Assumptions C01_named_sources_hold_the_states.
